@@ -726,6 +726,8 @@ func runC15(c *Ctx) {
 	ruleJoin(c, "R15.d")
 	ruleAcceptLoopEndsWithListener(c, "R15.f")
 	ruleAcceptLoopWaits(c, "R15.h")
+	// the sweep runs over a snapshot: a slice the registry keeps writing is not one
+	ruleNoAliasedSnapshots(c, "R15.i")
 	ruleStopClosesWhatIsOpen(c, "R15.g")
 	ruleRegistryBracket(c, "R15.e")
 	ruleConnKeyUnique(c, "R15.e")
@@ -1291,4 +1293,98 @@ func (m *syncModel) fromRegistry(v ssa.Value, depth int, seen map[ssa.Value]bool
 		}
 	}
 	return false
+}
+
+// ruleNoConcurrentMapAccess: the subset of the lockset verdict that is not "only" a data race:
+// the Go runtime detects a map written while another goroutine reads, ranges over or writes it
+// and ends the process with a fatal error that no recover() can stop — one client's request
+// takes the server down for every client.
+func ruleNoConcurrentMapAccess(c *Ctx, rid string) {
+	c.rule(rid, "for every map kept in a field of a shared struct of the framework: every (map update/delete/clear, map lookup/range/update/len) pair that can execute in concurrent roots holds a common mutex, exclusively at the write — an unsynchronised pair is a fatal runtime error (concurrent map read and map write), not a recoverable panic")
+	m := buildSyncModel(c)
+	roots := concurrencyRoots(c.P)
+	reach := map[string]map[*ssa.Function]bool{}
+	for _, r := range roots {
+		reach[r.Name] = m.reachFrom(r)
+	}
+	rootsOfFn := func(fn *ssa.Function) []rootInfo {
+		var out []rootInfo
+		for _, r := range roots {
+			if reach[r.Name][fn] {
+				out = append(out, r)
+			}
+		}
+		return out
+	}
+	byField := map[string][]Access{}
+	for _, a := range m.accesses {
+		if strings.HasPrefix(a.What, "map ") || a.What == "len" {
+			byField[a.Field] = append(byField[a.Field], a)
+		}
+	}
+	nf := 0
+	for _, field := range sortedKeys(byField) {
+		accs := byField[field]
+		hasWrite := false
+		for _, a := range accs {
+			if a.Write {
+				hasWrite = true
+			}
+		}
+		if !hasWrite {
+			continue
+		}
+		nf++
+		isConn := strings.HasPrefix(field, "redis.Conn.") || connOwned[field[:strings.LastIndex(field, ".")]]
+		var bad []string
+		npairs := 0
+		for i, w := range accs {
+			if !w.Write {
+				continue
+			}
+			wr := rootsOfFn(w.Fn)
+			for j, x := range accs {
+				if j < i && x.Write {
+					continue
+				}
+				conc := false
+				for _, r1 := range wr {
+					for _, r2 := range rootsOfFn(x.Fn) {
+						if !(r1.Goroutine || r2.Goroutine) {
+							continue
+						}
+						if isConn && r1.Goroutine && r2.Goroutine && !w.Foreign && !x.Foreign {
+							continue
+						}
+						conc = true
+					}
+				}
+				if !conc {
+					continue
+				}
+				npairs++
+				common := false
+				for k := range m.locks.names {
+					if w.Locks.mode(k) == 2 && x.Locks.mode(k) >= 1 {
+						common = true
+					}
+				}
+				if !common {
+					bad = append(bad, fmt.Sprintf("%s at %s (in %s, locks %s) vs %s at %s (in %s, locks %s)", w.What, c.P.instrPos(w.Ins), fnName(w.Fn), m.locks.render(w.Locks), x.What, c.P.instrPos(x.Ins), fnName(x.Fn), m.locks.render(x.Locks)))
+				}
+			}
+		}
+		key := "map/" + field
+		if len(bad) == 0 {
+			c.ok(rid, key, "", fmt.Sprintf("%d map accesses, %d concurrent write/access pairs, all under a common lock", len(accs), npairs))
+			continue
+		}
+		sort.Strings(bad)
+		if len(bad) > 4 {
+			bad = append(bad[:4], fmt.Sprintf("... and %d more", len(bad)-4))
+		}
+		c.bad(rid, key, "", fmt.Sprintf("%d concurrent map write/access pair(s) on %s without a common mutex: the runtime ends the process (fatal error: concurrent map read and map write) for every client", len(bad), field), bad...)
+	}
+	c.count("shared-maps-written", nf)
+	c.floor("shared-maps-written", 2)
 }
